@@ -261,3 +261,29 @@ func HarnessC09Desc(idx, level int) {
 	vassert("C09.out.desc.crc", crc == computeCRC32(got[:len(got)-4]))
 	vreach("C09.desc.end")
 }
+
+// HarnessC14LoopBig: descriptor bodies at the top of the 8-bit length range (L in 250..255) inside a loop: the 12-bit
+// loop length still equals the bytes emitted (2 + L per descriptor does not fit 8 bits), bytes equal the reference
+func HarnessC14LoopBig(L, n int) {
+	var ds []*Descriptor
+	for k := 0; k < n; k++ {
+		body := make([]byte, L)
+		for i := range body {
+			body[i] = byte(0x20 + (i+k)%0x50)
+		}
+		body[0] = vnondetU8()
+		ds = append(ds, &Descriptor{Tag: 0x90, Length: uint8(L), UserDefined: body})
+	}
+	ds = append(ds, &Descriptor{Tag: DescriptorTagStreamIdentifier, Length: 1, StreamIdentifier: &DescriptorStreamIdentifier{ComponentTag: vnondetU8()}})
+	lw := &refW{}
+	refEncDescriptorLoop(lw, ds)
+	sink := newVSink()
+	w := astikit.NewBitsWriter(astikit.BitsWriterOptions{Writer: sink})
+	nw, err := writeDescriptorsWithLength(w, ds)
+	vassert("C14.loopbig.err", err == nil)
+	vassert("C14.loopbig.n", nw == len(sink.buf))
+	vassert("C14.loopbig.len", len(sink.buf) >= 2 && int(uint16(sink.buf[0]&0xf)<<8|uint16(sink.buf[1])) == len(sink.buf)-2)
+	vassert("C14.loopbig.bytes", vBytesEqMasked(sink.buf, lw.b, lw.m))
+	vassert("C14.loopbig.calc", int(calcDescriptorsLength(ds)) == len(sink.buf)-2)
+	vreach("C14.loopbig.end")
+}
